@@ -73,5 +73,11 @@ def run(ctx):
                 "parked free list is otherwise lost when the next session zeroes the local state.")
     nh = efreelist.check_guard_handover(ctx, F)
     ctx.floor("E-FREELIST.handover", "session-end hand-over sites", nh, 1)
+    ctx.explain("E-LIN.rcconst: every comparison of a value derived from a reference count (load_rc, release, fetch_sub, the "
+                "terminal store's atomic load) with an integer constant in the manager crates and arcslab is one of the 11 "
+                "reviewed thresholds (== / != 1: only the unique table holds the node; != 2 in try_remove_node: the table and the "
+                "reference being released).")
+    nr = elin.check_rc_thresholds(ctx, F)
+    ctx.floor("E-LIN.rcconst", "reference-count comparisons inventoried", nr, 11)
     ctx.not_decided = ("exactness of counts over histories; the unsafe internals of the managers; "
                        "capacity restoration after gc")
